@@ -206,6 +206,10 @@ class RunResult:
         return h.hexdigest()[:16]
 
 
+REQUIRED = {'T': ('ord', 'rule', 'len', 'start', 'lineno', 'bol', 'buf'), 'E': ('ord', 'rule', 'start', 'lineno', 'buf'),
+            'L': ('ret', 'start', 'lineno'), 'R': ('src', 'max', 'ret', 'pos'), 'D': ('live', 'bytes'), 'Z': ('dead', 'live')}
+
+
 def parse_event(line):
     """'<seq> <inst> <KIND> rest' -> dict"""
     parts = line.split(' ')
@@ -282,7 +286,13 @@ def run_batch(exe, plans, timeout=8, cwd=None):
             r.raw.pop()
         for l in r.raw:
             try:
-                r.events.append(parse_event(l))
+                ev = parse_event(l)
+                need = REQUIRED.get(ev['k'], ())
+                if any(not isinstance(ev.get(k), int) for k in need):
+                    # a line cut short by the death of the process (e.g. a sanitizer report raised while
+                    # the line was being formatted): nobody may draw conclusions from it
+                    ev = {'seq': ev.get('seq', -1), 'inst': ev.get('inst', -1), 'k': '?', 'raw': l}
+                r.events.append(ev)
             except Exception:
                 r.events.append({'seq': -1, 'inst': -1, 'k': '?', 'raw': l})
     return res
